@@ -385,7 +385,20 @@ def c18_consume(ctx):
     from rules.c14 import c14_4
     c14_4(ctx)
 
-RULES = [c18_1, c18_2, c18_3, c18_scopes, c18_vetoes, c18_consume]
+def c18_operands(ctx):
+    """Blanks around the commas of an operand list do not matter for macros either: both generators split and trim alike (C10.3)."""
+    from rules.c10 import c10_3
+    c10_3(ctx)
+
+
+def c18_state(ctx):
+    """A statement's meaning does not depend on whether the same spelling was seen before: nothing is remembered between statements (STATE)."""
+    from rules.shared import state_discipline
+    state_discipline(ctx, ('bespokeasm.assembler.preprocessor', 'bespokeasm.assembler.line_object', 'bespokeasm.assembler.model.instruction_parser',
+                           'bespokeasm.assembler.bytecode.generator'))
+
+
+RULES = [c18_1, c18_2, c18_3, c18_scopes, c18_vetoes, c18_consume, c18_operands, c18_state]
 
 MUTANTS = [
     V('c18-zone-directive-not-same-line', 'assembler/line_object/factory.py', "                    if isinstance(line_obj, SetMemoryZoneLine):\n                        # statements that follow on the same line are assembled in the zone just selected\n                        current_memzone = line_obj.memory_zone\n", "", 'C18.3'),
